@@ -232,6 +232,25 @@ fn limb_ops(op: &str, a: &[&str]) -> Option<String> {
             Ok(w) => nzl(&w),
             Err(e) => deser_err(e),
         },
+        // ---- coverage round: AsRef<T>, Serialize (+ the round trip through Deserialize)
+        ("c12.nz.l.as_ref", [v]) => ct(NonZero::new(arg!(limb(v))), |w| {
+            let r: &Limb = AsRef::<Limb>::as_ref(w);
+            tag(r.0 != 0, lhex(*r))
+        }),
+        ("c12.odd.l.as_ref", []) => {
+            let w = Odd::<Limb>::default();
+            let r: &Limb = AsRef::<Limb>::as_ref(&w);
+            tag(r.0 & 1 == 1, lhex(*r))
+        }
+        ("c12.nz.l.ser", [v]) => ct(NonZero::new(arg!(limb(v))), |w| {
+            let b = bincode::serialize(w).unwrap();
+            let back = match bincode::deserialize::<NonZero<Limb>>(&b) {
+                Ok(w) => nzl(&w),
+                Err(e) => deser_err(e),
+            };
+            format!("{} {}", bytes_tok(&b), back)
+        }),
+        ("c12.odd.l.ser", []) => bytes_tok(&bincode::serialize(&Odd::<Limb>::default()).unwrap()),
         ("c12.nz.l.zeroize", [v]) => match opt(NonZero::new(arg!(limb(v)))) {
             Some(mut w) => {
                 w.zeroize();
@@ -324,6 +343,49 @@ macro_rules! fixed_impl {
                     None => "none".into(),
                 },
                 ("c12.nz.u.clone", [v]) => ct(NonZero::new(arg!(uint::<N>(v))), |w| nzu(&w.clone())),
+                // ---- coverage round: AsRef<T> / AsRef<[Limb]>, Serialize (+ round trip through Deserialize)
+                ("c12.nz.u.as_ref", [v]) => ct(NonZero::new(arg!(uint::<N>(v))), |w| {
+                    let r: &U = AsRef::<U>::as_ref(w);
+                    tag(nonzero_words(r.as_words()), uhex(r))
+                }),
+                ("c12.nz.i.as_ref", [v]) => ct(NonZero::new(arg!(int::<N>(v))), |w| {
+                    let r: &I = AsRef::<I>::as_ref(w);
+                    tag(nonzero_words(r.as_uint().as_words()), ihex(r))
+                }),
+                ("c12.odd.u.as_ref", [v]) => ct(Odd::new(arg!(uint::<N>(v))), |w| {
+                    let r: &U = AsRef::<U>::as_ref(w);
+                    tag(odd_words(r.as_words()), uhex(r))
+                }),
+                ("c12.odd.i.as_ref", [v]) => cct(arg!(int::<N>(v)).to_odd(), |w| {
+                    let r: &I = AsRef::<I>::as_ref(w);
+                    tag(odd_words(r.as_uint().as_words()), ihex(r))
+                }),
+                ("c12.odd.u.as_ref_limbs", [v]) => ct(Odd::new(arg!(uint::<N>(v))), |w| {
+                    let r: &[Limb] = AsRef::<[Limb]>::as_ref(w);
+                    let ws: Vec<Word> = r.iter().map(|l| l.0).collect();
+                    tag(odd_words(&ws), format!("{}:{}", ws.len(), words_hex(&ws)))
+                }),
+                ("c12.odd.i.as_ref_limbs", [v]) => cct(arg!(int::<N>(v)).to_odd(), |w| {
+                    let r: &[Limb] = AsRef::<[Limb]>::as_ref(w);
+                    let ws: Vec<Word> = r.iter().map(|l| l.0).collect();
+                    tag(odd_words(&ws), format!("{}:{}", ws.len(), words_hex(&ws)))
+                }),
+                ("c12.nz.u.ser", [v]) => ct(NonZero::new(arg!(uint::<N>(v))), |w| {
+                    let b = bincode::serialize(w).unwrap();
+                    let back = match bincode::deserialize::<NonZero<U>>(&b) {
+                        Ok(w) => nzu(&w),
+                        Err(e) => deser_err(e),
+                    };
+                    format!("{} {}", bytes_tok(&b), back)
+                }),
+                ("c12.odd.u.ser", [v]) => ct(Odd::new(arg!(uint::<N>(v))), |w| {
+                    let b = bincode::serialize(w).unwrap();
+                    let back = match bincode::deserialize::<Odd<U>>(&b) {
+                        Ok(w) => oddu(&w),
+                        Err(e) => deser_err(e),
+                    };
+                    format!("{} {}", bytes_tok(&b), back)
+                }),
                 // ---- NonZero<Int>
                 ("c12.nz.i.new", [v]) => ct(NonZero::new(arg!(int::<N>(v))), nzi),
                 ("c12.nz.i.to_nz", [v]) => cct(arg!(int::<N>(v)).to_nz(), nzi),
@@ -452,6 +514,19 @@ fn boxed_ops(op: &str, a: &[&str]) -> Option<String> {
             }
             None => "none".into(),
         },
+        ("c12.nz.b.as_ref", [k, v]) => ct(NonZero::new(arg!(boxed(v, arg!(dec(k))))), |w| {
+            let r: &BoxedUint = AsRef::<BoxedUint>::as_ref(w);
+            tag(nonzero_words(r.as_words()), bhexlen(r))
+        }),
+        ("c12.odd.b.as_ref", [k, v]) => ct(Odd::new(arg!(boxed(v, arg!(dec(k))))), |w| {
+            let r: &BoxedUint = AsRef::<BoxedUint>::as_ref(w);
+            tag(odd_words(r.as_words()), bhexlen(r))
+        }),
+        ("c12.odd.b.as_ref_limbs", [k, v]) => ct(Odd::new(arg!(boxed(v, arg!(dec(k))))), |w| {
+            let r: &[Limb] = AsRef::<[Limb]>::as_ref(w);
+            let ws: Vec<Word> = r.iter().map(|l| l.0).collect();
+            tag(odd_words(&ws), format!("{}:{}", ws.len(), words_hex(&ws)))
+        }),
         ("c12.odd.b.new", [k, v]) => ct(Odd::new(arg!(boxed(v, arg!(dec(k))))), oddb),
         ("c12.odd.b.to_odd", [k, v]) => ct(arg!(boxed(v, arg!(dec(k)))).to_odd(), oddb),
         ("c12.odd.b.default", []) => oddb(&Odd::<BoxedUint>::default()),
